@@ -2,17 +2,20 @@
 //!
 //! constructor-call tree  T ::= (0 b) Value | (1 c) eq | (2 c) ne | (3 c) ge | (4 c) le | (5 c) gt | (6 c) lt
 //!                            | (7 T T) Predicate::and | (8 T T) Predicate::or | (9 T) invert | (10 n) opaque atom
-//!                            | (11 P) raw enum value | (12 k n m) general_{eq,ne,ge,le}(atom n, atom m)
+//!                            | (11 P) raw enum value | (12 k t t) general_{eq,ne,ge,le}(term, term)
+//!                            | (13 op a b) predicate of constructors::interval(op, Int, a, b); op = 0 a..b 1 a<..b 2 a..<b 3 a<..<b
 //! raw predicate          P ::= (0 b) | (1 c) Equal | (2 c) NotEqual | (3 c) GreaterEqual | (4 c) LessEqual
 //!                            | (5 P ...) Or | (6 P P) And | (7 P) Not | (8 n) Const("c<n>")
-//!                            | (9 k n m) General{Equal,NotEqual,GreaterEqual,LessEqual}(Const c<n>, Const c<m>) | (99 text) anything else
-//! constants: integers; c >= 0 is ValueObj::Nat, c < 0 is ValueObj::Int (what literal evaluation produces)
+//!                            | (9 k t t) General{Equal,NotEqual,GreaterEqual,LessEqual} | (99 text) anything else
+//! term                   t ::= (0) Const(subject) | (1 z) Value(z) | (2 n) Const("c<n>")
+//! constants              c ::= z | (1 z) succ(z) | (-1 z) pred(z); z >= 0 is ValueObj::Nat, z < 0 is ValueObj::Int
+//!                              (what literal evaluation produces)
 //!
 //! cases:
-//!   (0 T)            -> P                           the predicate the constructors built
+//!   (0 T)            -> (P (law P Q c R) ...)       the predicate the constructors built, and every constructor
+//!                                                   application on the way: law = 0 and 1 or 2 invert 3 gt 4 lt
 //!   (1 T T bl br)    -> (verdict P Q)               subtype_of({I: bl | P}, {I: br | Q}); b = 0 Int, 1 Nat
-//!   (2 src)          -> (nerr (base P) (base Q))    lower the module `src`, report the signature of `g`
-//!   (3 T T)          -> (verdict)                   #[cfg(erg_verif)]-free: same as 1 with Int bases, no dumps
+//!   (2 src)          -> (nerr (base P) ... )        lower the module `src`, report the signature of `g`
 #[allow(dead_code)]
 #[path = "../../common/sx.rs"]
 mod sx;
@@ -25,18 +28,41 @@ use erg_common::traits::Runnable;
 use erg_common::Str;
 use erg_compiler::context::ModuleContext;
 use erg_compiler::lower::ASTLowerer;
-use erg_compiler::ty::constructors::refinement;
+use erg_compiler::ty::constructors::{interval, refinement};
+use erg_compiler::ty::typaram::IntervalOp;
 use erg_compiler::ty::value::ValueObj;
 use erg_compiler::ty::{ParamTy, Predicate, TyParam, Type};
 use sx::Sx;
 
 const SUBJ: &str = "I";
 
-fn cst(c: i128) -> TyParam {
+fn val(c: i128) -> ValueObj {
     if c >= 0 {
-        TyParam::value(ValueObj::Nat(c as u64))
+        ValueObj::Nat(c as u64)
     } else {
-        TyParam::value(ValueObj::Int(c as i32))
+        ValueObj::Int(c as i32)
+    }
+}
+
+fn cst(x: &Sx) -> TyParam {
+    match x {
+        Sx::L(l) => {
+            let v = TyParam::value(val(l[1].z()));
+            if l[0].z() == 1 {
+                v.succ()
+            } else {
+                v.pred()
+            }
+        }
+        _ => TyParam::value(val(x.z())),
+    }
+}
+
+fn term(x: &Sx) -> Predicate {
+    match x.nth(0).z() {
+        0 => Predicate::Const(s()),
+        1 => Predicate::Value(val(x.nth(1).z())),
+        _ => atom(x.nth(1).z()),
     }
 }
 
@@ -52,10 +78,10 @@ fn dec_raw(x: &Sx) -> Predicate {
     let k = x.nth(0).z();
     match k {
         0 => Predicate::Value(ValueObj::Bool(x.nth(1).z() != 0)),
-        1 => Predicate::Equal { lhs: s(), rhs: cst(x.nth(1).z()) },
-        2 => Predicate::NotEqual { lhs: s(), rhs: cst(x.nth(1).z()) },
-        3 => Predicate::GreaterEqual { lhs: s(), rhs: cst(x.nth(1).z()) },
-        4 => Predicate::LessEqual { lhs: s(), rhs: cst(x.nth(1).z()) },
+        1 => Predicate::Equal { lhs: s(), rhs: cst(x.nth(1)) },
+        2 => Predicate::NotEqual { lhs: s(), rhs: cst(x.nth(1)) },
+        3 => Predicate::GreaterEqual { lhs: s(), rhs: cst(x.nth(1)) },
+        4 => Predicate::LessEqual { lhs: s(), rhs: cst(x.nth(1)) },
         5 => {
             let mut set = Set::new();
             for p in &x.l()[1..] {
@@ -66,7 +92,7 @@ fn dec_raw(x: &Sx) -> Predicate {
         6 => Predicate::And(Box::new(dec_raw(x.nth(1))), Box::new(dec_raw(x.nth(2)))),
         7 => Predicate::Not(Box::new(dec_raw(x.nth(1)))),
         8 => atom(x.nth(1).z()),
-        9 => general(x.nth(1).z(), atom(x.nth(2).z()), atom(x.nth(3).z())),
+        9 => general(x.nth(1).z(), term(x.nth(2)), term(x.nth(3))),
         _ => Predicate::Failure,
     }
 }
@@ -80,22 +106,55 @@ fn general(k: i128, a: Predicate, b: Predicate) -> Predicate {
     }
 }
 
-fn build(x: &Sx) -> Predicate {
+fn dummy() -> Sx {
+    Sx::L(vec![Sx::Z(0), Sx::Z(0)])
+}
+
+/// evaluate a constructor-call tree; every constructor application is logged as (law P Q c R)
+fn build(x: &Sx, log: &mut Vec<Sx>) -> Predicate {
     let k = x.nth(0).z();
     match k {
         0 => Predicate::Value(ValueObj::Bool(x.nth(1).z() != 0)),
-        1 => Predicate::eq(s(), cst(x.nth(1).z())),
-        2 => Predicate::ne(s(), cst(x.nth(1).z())),
-        3 => Predicate::ge(s(), cst(x.nth(1).z())),
-        4 => Predicate::le(s(), cst(x.nth(1).z())),
-        5 => Predicate::gt(s(), cst(x.nth(1).z())),
-        6 => Predicate::lt(s(), cst(x.nth(1).z())),
-        7 => Predicate::and(build(x.nth(1)), build(x.nth(2))),
-        8 => Predicate::or(build(x.nth(1)), build(x.nth(2))),
-        9 => build(x.nth(1)).invert(),
+        1 => Predicate::eq(s(), cst(x.nth(1))),
+        2 => Predicate::ne(s(), cst(x.nth(1))),
+        3 => Predicate::ge(s(), cst(x.nth(1))),
+        4 => Predicate::le(s(), cst(x.nth(1))),
+        5 | 6 => {
+            let r = if k == 5 { Predicate::gt(s(), cst(x.nth(1))) } else { Predicate::lt(s(), cst(x.nth(1))) };
+            log.push(Sx::L(vec![Sx::Z(k - 2), dummy(), dummy(), x.nth(1).clone(), enc(&r)]));
+            r
+        }
+        7 | 8 => {
+            let p = build(x.nth(1), log);
+            let q = build(x.nth(2), log);
+            let (ep, eq) = (enc(&p), enc(&q));
+            let r = if k == 7 { Predicate::and(p, q) } else { Predicate::or(p, q) };
+            log.push(Sx::L(vec![Sx::Z(k - 7), ep, eq, Sx::Z(0), enc(&r)]));
+            r
+        }
+        9 => {
+            let p = build(x.nth(1), log);
+            let ep = enc(&p);
+            let r = p.invert();
+            log.push(Sx::L(vec![Sx::Z(2), ep, dummy(), Sx::Z(0), enc(&r)]));
+            r
+        }
         10 => atom(x.nth(1).z()),
         11 => dec_raw(x.nth(1)),
-        12 => general(x.nth(1).z(), atom(x.nth(2).z()), atom(x.nth(3).z())),
+        12 => general(x.nth(1).z(), term(x.nth(2)), term(x.nth(3))),
+        13 => {
+            let op = match x.nth(1).z() {
+                0 => IntervalOp::Closed,
+                1 => IntervalOp::LeftOpen,
+                2 => IntervalOp::RightOpen,
+                _ => IntervalOp::Open,
+            };
+            let t = interval(op, Type::Int, TyParam::value(val(x.nth(2).z())), TyParam::value(val(x.nth(3).z())));
+            match t {
+                Type::Refinement(r) => (*r.pred).clone().change_subject_name(s()),
+                _ => Predicate::Failure,
+            }
+        }
         _ => Predicate::Failure,
     }
 }
@@ -104,14 +163,27 @@ fn other(p: &dyn std::fmt::Display) -> Sx {
     Sx::L(vec![Sx::Z(99), Sx::from_str_cp(&p.to_string())])
 }
 
+fn enc_tp(tp: &TyParam) -> Option<Sx> {
+    match tp {
+        TyParam::Value(ValueObj::Int(i)) => Some(Sx::Z(*i as i128)),
+        TyParam::Value(ValueObj::Nat(n)) => Some(Sx::Z(*n as i128)),
+        TyParam::App { name, args } if args.len() == 1 && (&name[..] == "succ" || &name[..] == "pred") => {
+            match enc_tp(&args[0]) {
+                Some(Sx::Z(z)) => Some(Sx::L(vec![Sx::Z(if &name[..] == "succ" { 1 } else { -1 }), Sx::Z(z)])),
+                _ => None,
+            }
+        }
+        _ => None,
+    }
+}
+
 fn enc_cst(k: i128, lhs: &Str, tp: &TyParam, whole: &Predicate) -> Sx {
     if &lhs[..] != SUBJ {
         return other(whole);
     }
-    match tp {
-        TyParam::Value(ValueObj::Int(i)) => Sx::L(vec![Sx::Z(k), Sx::Z(*i as i128)]),
-        TyParam::Value(ValueObj::Nat(n)) => Sx::L(vec![Sx::Z(k), Sx::Z(*n as i128)]),
-        _ => other(whole),
+    match enc_tp(tp) {
+        Some(c) => Sx::L(vec![Sx::Z(k), c]),
+        None => other(whole),
     }
 }
 
@@ -123,9 +195,18 @@ fn atom_id(p: &Predicate) -> Option<i128> {
     }
 }
 
+fn enc_term(p: &Predicate) -> Option<Sx> {
+    match p {
+        Predicate::Const(name) if &name[..] == SUBJ => Some(Sx::L(vec![Sx::Z(0)])),
+        Predicate::Value(ValueObj::Int(i)) => Some(Sx::L(vec![Sx::Z(1), Sx::Z(*i as i128)])),
+        Predicate::Value(ValueObj::Nat(n)) => Some(Sx::L(vec![Sx::Z(1), Sx::Z(*n as i128)])),
+        _ => atom_id(p).map(|n| Sx::L(vec![Sx::Z(2), Sx::Z(n)])),
+    }
+}
+
 fn enc_general(k: i128, l: &Predicate, r: &Predicate, whole: &Predicate) -> Sx {
-    match (atom_id(l), atom_id(r)) {
-        (Some(a), Some(b)) => Sx::L(vec![Sx::Z(9), Sx::Z(k), Sx::Z(a), Sx::Z(b)]),
+    match (enc_term(l), enc_term(r)) {
+        (Some(a), Some(b)) => Sx::L(vec![Sx::Z(9), Sx::Z(k), a, b]),
         _ => other(whole),
     }
 }
@@ -215,10 +296,17 @@ fn with_ctx<R>(f: impl FnOnce(&ModuleContext) -> R) -> R {
 
 fn run(case: &Sx) -> Sx {
     match case.nth(0).z() {
-        0 => enc(&build(case.nth(1))),
+        0 => {
+            let mut log = vec![];
+            let r = build(case.nth(1), &mut log);
+            let mut out = vec![enc(&r)];
+            out.extend(log);
+            Sx::L(out)
+        }
         1 | 3 => {
-            let p = build(case.nth(1));
-            let q = build(case.nth(2));
+            let mut log = vec![];
+            let p = build(case.nth(1), &mut log);
+            let q = build(case.nth(2), &mut log);
             let (bl, br) = if case.l().len() > 4 { (case.nth(3).z(), case.nth(4).z()) } else { (0, 0) };
             let sub = refinement(s(), base(bl), p.clone());
             let sup = refinement(s(), base(br), q.clone());
